@@ -869,29 +869,20 @@ func ruleFailedInit(c *Ctx) {
 // returnsOwnError: the returned error is (directly or through a phi/store of the same variable) the error
 // result of that very acquisition call, i.e. the acquisition itself failed.
 func returnsOwnError(ret *ssa.Return, call *ssa.Call) bool {
-	var rec func(v ssa.Value, d int) bool
-	rec = func(v ssa.Value, d int) bool {
-		if d > 6 {
-			return false
-		}
-		switch x := v.(type) {
-		case *ssa.Extract:
-			return x.Tuple == call
-		case *ssa.Phi:
-			for _, e := range x.Edges {
-				if rec(e, d+1) {
-					return true
-				}
-			}
-		}
+	ev := errValueOf(call)
+	if ev == nil {
 		return false
 	}
-	if !rec(ret.Results[0], 0) {
-		return false
+	// the acquisition's own error, possibly wrapped with context …
+	if errDerivedFrom(ret.Results[0], ev, 0) {
+		return true
 	}
-	// and the return must be control dependent on that error being non-nil: approximated by
-	// "no other acquisition-free path": accept.
-	return true
+	// … or any error returned on the edge where the acquisition failed (nothing was acquired)
+	fn := call.Parent()
+	if iff, nonNil, _ := nilGuard(fn, ev); iff != nil && nonNil != nil && edgeMustPass(fn, edge{iff.Block(), nonNil}, ret.Block()) {
+		return true
+	}
+	return false
 }
 
 func shortErr(v ssa.Value) string {
